@@ -98,6 +98,7 @@ func genC02(t *rapid.T) C02Case {
 		}
 		c.Reqs = append(c.Reqs, reqs)
 	}
+	addPrunes(t, c.Blocks)
 	full := genMapCfg(t, "full")
 	full.Full = true
 	part := genMapCfg(t, "part")
@@ -121,11 +122,17 @@ func runC02(c C02Case) *Result {
 		if err := ls.step(i, b); err != nil {
 			return res.failf("%v", err)
 		}
+		for _, d := range b.Prune {
+			delete(remembered, d)
+		}
 		for _, d := range b.Del {
 			delete(remembered, d)
 		}
 		for _, r := range b.Rem {
 			remembered[first+r] = true
+		}
+		if len(b.Prune) > 0 {
+			res.count("blocks_after_prune", 1)
 		}
 		if i >= len(c.Reqs) {
 			continue
